@@ -38,7 +38,7 @@ func init() {
 	registerProp(&PropDef{
 		ID:    "C08",
 		Title: "Location reports are decoded as the standard prescribes",
-		Roots: []string{
+		Roots: []string{"model.(*T0x0200AdditionDetails).parseTirePressure", 
 			"model.(*AlarmSignDetails).parse", "model.(*StatusSignDetails).parse", "model.(*T0x0200LocationItem).parse",
 			"model.(*T0x0200AdditionDetails).parseExtendVehicleStatus", "model.(*T0x0200AdditionDetails).parseIOStatus",
 			"model.(*T0x0200AdditionDetails).decode", "model.(*T0x0200AdditionDetails).parse",
@@ -114,6 +114,7 @@ func init() {
 		ID:    "C06",
 		Title: "Automatic replies: one per request, correctly correlated, ordered and numbered",
 		Roots: []string{
+			"service.(*packageParse).parse",
 			"model.(*P0x8001).Encode", "model.(*BaseHandle).ReplyBody", "model.(*BaseHandle).ReplyProtocol", "model.(*BaseHandle).HasReply",
 			"model.(*T0x0001).HasReply", "model.(*T0x0104).HasReply", "model.(*T0x0805).HasReply", "model.(*T0x1205).HasReply", "model.(*T0x1206).HasReply",
 			"model.(*T0x0002).ReplyProtocol", "model.(*T0x0100).ReplyProtocol", "model.(*T0x0801).ReplyProtocol", "model.(*T0x1210).ReplyProtocol", "model.(*T0x1212).ReplyProtocol",
@@ -150,7 +151,7 @@ func init() {
 	registerProp(&PropDef{
 		ID:    "C14",
 		Title: "Missing sub-packages are re-requested exactly, stale transfers expire",
-		Roots: []string{
+		Roots: []string{"service.(*packageParse).parse", 
 			"service.(*packageParse).supplementarySubPackage", "service.(*packageParse).deleteTimeoutPackage", "service.(*packageParse).add", "service.(*packageParse).remove",
 			"service.(*packageParse).completePack", "model.(*P0x8003).Encode",
 		},
